@@ -185,10 +185,13 @@ class Executor:
             if not chunk:
                 return self._died("eof")
             buf += chunk
-            if buf.endswith(b"\n"):
-                break
+            if buf.endswith(b"\n") and b"\n@@VERIF-RESULT@@" in buf:
+                i = buf.rindex(b"\n@@VERIF-RESULT@@")
+                if b"\n" in buf[i + 1:]:
+                    break
         try:
-            return json.loads(buf.decode())
+            i = buf.rindex(b"\n@@VERIF-RESULT@@")
+            return json.loads(buf[i + len(b"\n@@VERIF-RESULT@@"):].decode())
         except Exception as e:  # noqa
             return {"executor_died": True, "reason": f"bad json: {e}", "raw": buf[:400].decode(errors="replace")}
 
